@@ -110,9 +110,9 @@ func check(t h.TB, c Case) {
 		t.Fatalf("harness: %v", err)
 	}
 	// decorate every package with the types-based resolver
-	trees := map[string]*dst.File{}    // file name -> tree
-	filePkg := map[string]string{}     // file name -> package path
-	before := map[string][]denot{}     // top-level declaration name -> what its identifiers denote
+	trees := map[string]*dst.File{} // file name -> tree
+	filePkg := map[string]string{}  // file name -> package path
+	before := map[string][]denot{}  // top-level declaration name -> what its identifiers denote
 	var fnames []string
 	needsLocal := map[dst.Node]bool{}
 	for path, files := range c.Pkgs {
